@@ -45,6 +45,14 @@ def findAndDelete (s sig : Bytes) : Option (Bytes × Bool) :=
     ((ts.filter (fun t => !(isCanonicalPush t.op t.data && t.data == sig))).flatMap (·.raw),
      ts.any (fun t => isCanonicalPush t.op t.data && t.data == sig)))
 
+/-- The script code a legacy CHECKSIG commits to: the executed sub-script (from the last executed
+code separator), minus every canonical push of the signature being checked (nothing for an empty
+signature), minus every remaining OP_CODESEPARATOR -- all at opcode boundaries. -/
+def legacyScriptCode (sub sig : Bytes) : Option Bytes :=
+  (parse sub).map (fun ts =>
+    ((ts.filter (fun t => !(decide (sig ≠ []) && (isCanonicalPush t.op t.data && t.data == sig)))).filter
+      (fun t => t.op != OP_CODESEPARATOR)).flatMap (·.raw))
+
 /-! ### legacy -/
 
 /-- uint256 one, little endian: the SIGHASH_SINGLE out-of-range "digest" -/
